@@ -406,7 +406,7 @@ def check_aux(ctx, case):
         return
     desc["hex"] = b.hex() if len(b) < 600 else b[:300].hex() + "..."
     none_scripts = a["k"] == "shelley_ma" and a["native"] is None
-    ctx.count(f"md-aux:{a['k']}" + (f":mask={case['mask']:05b}" if a["k"] == "alonzo" else ":native=None" if none_scripts else ""))
+    ctx.count(f"md-aux:{a['k']}" + (f":mask={case['mask']:05b}" if a["k"] == "alonzo" else ":native-omitted" if none_scripts else ""))
     if a["md"]:
         ctx.count("md-aux:labels:" + str(len(a["md"])))
         ctx.count("md-aux:depth:" + str(max(depth_of(n) for _, n in a["md"])))
@@ -416,50 +416,45 @@ def check_aux(ctx, case):
         err = None
     except Exception as e:
         y, err = None, e
-    judged = True
     if none_scripts:
-        # outside the hypotheses of `aux_roundtrip_partial` (theorems shelley_ma_none_crashes / aux_roundtrip_counterexample):
-        # reported, not judged; the model must agree with what happens
-        ctx.count("md-aux:shelley_ma-native-None:" + ("decodes" if err is None else classify(err)))
-        ctx.skipped += 1
-        judged = False
-    if judged:
-        if err is not None:
-            ctx.violation(f"AuxiliaryData: the encoded object cannot be decoded ({type(err).__name__}: {str(err)[:120]})", desc,
-                          "an object", classify(err))
-        else:
-            if type(y.data) is not type(x.data):
-                ctx.violation("AuxiliaryData: decoded as another era", desc, era_of(x.data), era_of(y.data))
-            elif not (y == x) or not (x == y):
-                ctx.violation("AuxiliaryData: decode(encode(x)) != x", desc, obj_json(x.data), obj_json(y.data))
+        # `ShelleyMarryMetadata(metadata)`: the constructor makes the script list `[]` (68fc5c3); judged like every other case
+        ctx.count("md-aux:shelley_ma-native-omitted:" + ("decodes" if err is None else classify(err)))
+    if err is not None:
+        ctx.violation(f"AuxiliaryData: the encoded object cannot be decoded ({type(err).__name__}: {str(err)[:120]})", desc,
+                      "an object", classify(err))
+    else:
+        if type(y.data) is not type(x.data):
+            ctx.violation("AuxiliaryData: decoded as another era", desc, era_of(x.data), era_of(y.data))
+        elif not (y == x) or not (x == y):
+            ctx.violation("AuxiliaryData: decode(encode(x)) != x", desc, obj_json(x.data), obj_json(y.data))
+        try:
+            b2 = y.to_cbor()
+        except Exception:
+            b2 = None
+        if b2 != b:
+            ctx.violation("AuxiliaryData: re-encoding the decoded object gives different bytes", desc, b.hex(),
+                          b2.hex() if b2 else None)
+        # the era class itself, without the dispatch
+        try:
+            z = type(x.data).from_cbor(b)
+            if not (z == x.data):
+                ctx.violation(f"{type(x.data).__name__}: decode(encode(x)) != x", desc, obj_json(x.data), obj_json(z))
+        except Exception as e:
+            ctx.violation(f"{type(x.data).__name__}.from_cbor refuses its own encoding ({type(e).__name__})", desc, "an object",
+                          classify(e))
+        # the other two era classes must refuse it with DeserializeException (the dispatch relies on it)
+        for cls in (Metadata, ShelleyMarryMetadata, AlonzoMetadata):
+            if cls is type(x.data):
+                continue
             try:
-                b2 = y.to_cbor()
-            except Exception:
-                b2 = None
-            if b2 != b:
-                ctx.violation("AuxiliaryData: re-encoding the decoded object gives different bytes", desc, b.hex(),
-                              b2.hex() if b2 else None)
-            # the era class itself, without the dispatch
-            try:
-                z = type(x.data).from_cbor(b)
-                if not (z == x.data):
-                    ctx.violation(f"{type(x.data).__name__}: decode(encode(x)) != x", desc, obj_json(x.data), obj_json(z))
+                cls.from_cbor(b)
+                ctx.violation(f"{cls.__name__} accepts the encoding of a {type(x.data).__name__}", desc, "deser", "ok")
+            except DeserializeException:
+                pass
             except Exception as e:
-                ctx.violation(f"{type(x.data).__name__}.from_cbor refuses its own encoding ({type(e).__name__})", desc, "an object",
-                              classify(e))
-            # the other two era classes must refuse it with DeserializeException (the dispatch relies on it)
-            for cls in (Metadata, ShelleyMarryMetadata, AlonzoMetadata):
-                if cls is type(x.data):
-                    continue
-                try:
-                    cls.from_cbor(b)
-                    ctx.violation(f"{cls.__name__} accepts the encoding of a {type(x.data).__name__}", desc, "deser", "ok")
-                except DeserializeException:
-                    pass
-                except Exception as e:
-                    ctx.violation(f"{cls.__name__} on the encoding of a {type(x.data).__name__}: {type(e).__name__} instead of "
-                                  "DeserializeException (AuxiliaryData.from_primitive would not reach the next era)", desc,
-                                  "deser", "crash")
+                ctx.violation(f"{cls.__name__} on the encoding of a {type(x.data).__name__}: {type(e).__name__} instead of "
+                              "DeserializeException (AuxiliaryData.from_primitive would not reach the next era)", desc,
+                              "deser", "crash")
     # insertion order of the labels is not on the wire
     if a["md"] and len(a["md"]) > 1:
         order = list(range(len(a["md"])))
@@ -475,16 +470,18 @@ def check_aux(ctx, case):
     # ---- correspondence with the model
     if ctx.have_driver():
         d = ctx.driver()
-        nat = None if not isinstance(x.data, (ShelleyMarryMetadata, AlonzoMetadata)) or x.data.native_scripts is None else \
-            [dumps(s).hex() for s in x.data.native_scripts]
+        # the driver is given the constructor ARGUMENTS (a script list that was not given stays `null`) and normalises itself
+        nat = None if a["native"] is None else [dumps(s).hex() for s in x.data.native_scripts]
         m = d.ok({"op": "md.enc", "aux": aux_json(a, nat)})
+        if m["constructed"] != obj_json(x.data):
+            ctx.diff("md.constructor", desc, m["constructed"], obj_json(x.data))
         ctx.traces += 1
         if m["hex"] != b.hex():
             ctx.diff("md.enc", desc, m["hex"], b.hex())
         ctx.count("md-aux:" + ("in_theorem_scope" if m["inscope"] else "outside_theorem_scope"))
         ctx.count("md-aux:" + ("in_cddl_ranges" if m["specok"] else "outside_cddl_ranges"))
-        if m["inscope"] == none_scripts:
-            ctx.diff("md.enc.inscope", desc, m["inscope"], not none_scripts)
+        if not m["inscope"]:
+            ctx.diff("md.enc.inscope", desc, m["inscope"], True)
         k, md = d.call({"op": "md.dec", "hex": b.hex(), "as": "aux"})
         ctx.traces += 1
         if k != "ok":
@@ -729,15 +726,29 @@ def check_witnesses(ctx, case):
         if model != impl:
             ctx.diff("md.witness." + name, {**case, "witness": name}, model, impl)
 
-    # aux_roundtrip_counterexample / shelley_ma_none_crashes: `82 a0 f6`, then a non-Deserialize exception
+    # the former counterexample of the round trip (repaired by 68fc5c3), now a NORMAL round-trip case, judged:
+    # `AuxiliaryData(ShelleyMarryMetadata(Metadata()))` is `82 a0 80`, decodes to an equal object, re-encodes to the same bytes
+    wdesc = {**case, "witness": "shelley_ma_default"}
     x = AuxiliaryData(ShelleyMarryMetadata(Metadata()))
-    b = x.to_cbor()
     try:
-        AuxiliaryData.from_cbor(b)
+        b = x.to_cbor()
+        y = AuxiliaryData.from_cbor(b)
+        if b.hex() != "82a080":
+            ctx.violation("AuxiliaryData(ShelleyMarryMetadata(Metadata())) is not written [{}, []]", wdesc, "82a080", b.hex())
+        if not (y == x) or type(y.data) is not ShelleyMarryMetadata or y.to_cbor() != b:
+            ctx.violation("AuxiliaryData(ShelleyMarryMetadata(Metadata())): decode(encode(x)) != x or re-encoding differs", wdesc,
+                          obj_json(x.data), obj_json(y.data))
+    except Exception as e:
+        ctx.violation(f"AuxiliaryData(ShelleyMarryMetadata(Metadata())) does not survive to_cbor / from_cbor ({type(e).__name__}: "
+                      f"{str(e)[:100]})", wdesc, "round trip", type(e).__name__)
+    ctx.count("md-witness:shelley_ma_default:judged")
+    # shelley_ma_foreign_null_crashes: a foreign `82 a0 f6` (null where the list is prescribed) raises a non-Deserialize exception
+    try:
+        AuxiliaryData.from_cbor(bytes.fromhex("82a0f6"))
         r = "ok"
     except Exception as e:
         r = classify(e)
-    note("shelley_ma_none", ["82a0f6", "crash"], [b.hex(), r])
+    note("shelley_ma_foreign_null", "crash", r)
     # validation_sound_counterexample: a 65-byte key of a nested map, a boolean, an integer beyond 64 bits are accepted
     for name, v, hexp in (("nested_key_65", {"x" * 65: 1}, "a100a17841" + "78" * 65 + "01"), ("bool_value", True, "a100f5"),
                           ("bignum_value", 2**64, "a100c249010000000000000000")):
@@ -783,7 +794,7 @@ def dispatch(ctx, case):
 
 
 def aux_cases(ctx, n, tag):
-    """eras in turn; the Alonzo mask runs through all 32 subsets; `native_scripts=None` in the Shelley-MA form now and then"""
+    """eras in turn; the Alonzo mask runs through all 32 subsets; `native_scripts` omitted in the Shelley-MA form now and then"""
     j = 0
     for i in range(n):
         era = ERAS[i % 3]
@@ -799,9 +810,7 @@ def aux_cases(ctx, n, tag):
 def run_ext(ctx):
     ctx.assumptions.append("metadata / auxiliary data: native scripts inside auxiliary data are a leaf of the model (the bytes the "
                            "library wrote are handed to the driver), Plutus scripts are byte strings; "
-                           "ShelleyMarryMetadata(native_scripts=None) is outside the hypotheses of aux_roundtrip_partial "
-                           "(written [metadata, null], not decodable: theorem shelley_ma_none_crashes) and is compared with the "
-                           "model only")
+                           "the driver is given the constructor arguments and applies the model of the constructor (normAux)")
     for case in aux_cases(ctx, ctx.budget(720, 15000), "mda"):
         dispatch(ctx, case)
     for i in range(ctx.budget(900, 15000)):
